@@ -27,7 +27,7 @@ PROP = dict(
         "keys are modelled by their encoded bits; typed keys are in range of their declared width (a Go Uint7 holding 200 "
         "is outside the model)",
         "the dictionary state is a list of pairs: NewHashmap/NewHashmapE with slices of different lengths is outside the model",
-        "value codecs are parameters: theorems assume the decoder reads back what the encoder wrote (DecodesPayload) and "
+        "value codecs are parameters: theorems assume, for the values that occur, that the decoder reads back what the encoder wrote (DecodesValue) and "
         "that a leaf has room for the value next to a full-width label (Fits; coarse bound n + 9 + bitlen n)",
         "key width n < 2^64 (a Go int); every shipped key type has n <= 512",
     ],
